@@ -8,6 +8,7 @@ package props
 
 import (
 	"encoding/json"
+	"reflect"
 	"testing"
 
 	"github.com/google/jsonschema-go/jsonschema"
@@ -26,14 +27,28 @@ type c08Case struct {
 	Inst    *jv.V    `json:"instance"`
 	Choices [][]int  `json:"choices"`
 	Reprs   []string `json:"reprs,omitempty"`
+	// Fixed[i] > 0: representation i is built as c08FixedTypes[Fixed[i]-1] when that type can hold
+	// the instance (homogeneous typed containers of numbers)
+	Fixed []int `json:"fixed,omitempty"`
+}
+
+var c08FixedTypes = []reflect.Type{
+	reflect.TypeFor[[]json.Number](), reflect.TypeFor[map[string]json.Number](), reflect.TypeFor[[]float64](),
+	reflect.TypeFor[[]*json.Number](), reflect.TypeFor[[3]json.Number](), reflect.TypeFor[[]float32](), reflect.TypeFor[map[string]float64](),
 }
 
 func checkC08(c *c08Case, rec *ev.Recorder) (fl *failure, harnessErr string) {
 	doc := c.Schema.JSON()
 	var reps []any
 	c.Reprs = nil
-	for _, ch := range c.Choices {
-		x := (&repr.Builder{C: &repr.Script{Seq: ch}}).Build(c.Inst)
+	for i, ch := range c.Choices {
+		b := &repr.Builder{C: &repr.Script{Seq: ch}}
+		x := b.Build(c.Inst)
+		if i < len(c.Fixed) && c.Fixed[i] > 0 && c.Fixed[i] <= len(c08FixedTypes) {
+			if y, ok := (&repr.Builder{C: &repr.Script{Seq: ch}}).BuildAs(c.Inst, c08FixedTypes[c.Fixed[i]-1]); ok {
+				x = y
+			}
+		}
 		if msg := selfCheckRepr(x, c.Inst); msg != "" {
 			return nil, msg
 		}
@@ -87,6 +102,22 @@ func TestC08(t *testing.T) {
 		// multipleOf stays whatever the magnitudes are: the reference here is the canonical decoding
 		// of the same document, not exact arithmetic, so C01's multipleOf restriction does not apply
 		c.Inst = insts[0]
+		if rapid.IntRange(0, 7).Draw(t, "numberlists") == 0 {
+			// one subschema applied to several numbers in turn (items, additionalProperties, contains),
+			// integral and fractional ones mixed, carried by homogeneous typed containers
+			sub := jv.ObjV(jv.Member{K: "type", V: jv.StrV(rapid.SampledFrom([]string{"integer", "number"}).Draw(t, "nltype"))})
+			if rapid.Bool().Draw(t, "nlmin") {
+				sub.Set("minimum", jv.NumV("1"))
+			}
+			kw := rapid.SampledFrom([]string{"items", "additionalProperties", "contains"}).Draw(t, "nlkw")
+			c.Schema = jv.ObjV(jv.Member{K: kw, V: sub})
+			lists := []string{`[1,2.5,3]`, `[2.5,1]`, `[1,1.0,2]`, `[0,-0,0.5]`, `[3,2,1]`, `{"a":1,"b":2.5}`, `{"a":2.5,"b":1,"c":4}`, `[1e2,0.5,7]`}
+			c.Inst, _ = jv.Parse(rapid.SampledFrom(lists).Draw(t, "nllist"))
+			for i := 0; i < 5; i++ {
+				c.Fixed = append(c.Fixed, rapid.IntRange(0, len(c08FixedTypes)).Draw(t, "nlfixed"))
+			}
+			rec.Class("family:typed-number-containers")
+		}
 		used := map[string]int{}
 		for i := 0; i < 5; i++ {
 			l := &repr.Logger{In: repr.RapidChooser{T: t}}
